@@ -185,6 +185,9 @@ func runC14(c *core.Ctx) {
 		}
 	}
 	c.Note("%d configurations (naming × back-end × base path), each in its own process around the real web.Router", len(cfgs))
+	if f, ok := extra["C14"]; ok {
+		f(c)
+	}
 }
 
 func c14Tail(s string, n int) string {
